@@ -65,6 +65,9 @@ pub const CONTEXTS: &[(&str, &str)] = &[
     ("if-one-armed", "(if #t CALL)"),
     ("and-3", "(and #t 1 CALL)"),
     ("or-3", "(or #f #f CALL)"),
+    // binding forms that bind a PROCEDURE (a closure over the loop's frame, made every round)
+    ("let-binding-a-lambda", "(let ((h (lambda () n))) CALL)"),
+    ("let*-binding-a-lambda", "(let* ((t 1) (h (lambda () (list t n)))) CALL)"),
     ("apply", "APPLYCALL"),
 ];
 
@@ -108,6 +111,15 @@ pub const SHAPES: &[Shape] = &[
         defs: "(define (la self other n acc) BODY0) (define (lb self other n acc) BODY1)",
         start: "(la la lb N 0)",
         calls: &[("other", "other self NEXT (+ acc 1)"), ("other", "other self NEXT (+ acc 3)")],
+        result: alternating,
+    },
+    // two closures of ONE lambda (made by one maker, different captured step) hand control to each
+    // other through identically named parameters
+    Shape {
+        name: "sibling-closures-through-parameters",
+        defs: "(define (make-player step) (lambda (self other n acc) BODY0)) (define pa (make-player 1)) (define pb (make-player 3))",
+        start: "(pa pa pb N 0)",
+        calls: &[("other", "other self NEXT (+ acc step)")],
         result: alternating,
     },
     Shape { name: "closure-returned", defs: "(define (make-step) (lambda (n acc) BODY0))", start: "((make-step) N 0)", calls: &[("(make-step)", "NEXT (+ acc 1)")], result: ident },
